@@ -454,4 +454,63 @@ def r04_6(ctx):
     return o
 
 
-RULES = [r04_1, r04_2, r04_3, r04_4, r04_5, r04_6]
+def r04_7(ctx):
+    """abstract runs (W) of the five per-curve integrals of IntegrateJordan (vertical, polynomial, lenght, area,
+    winding_number) with the default node count on stand-in curves whose segments have degrees 1, 2, 3 -- listed in that
+    order and in the reverse order: what each segment's integral is given as node count must not depend on the other
+    segments of the curve (the default is each segment's own affair: `None`, or a count derived from that segment)"""
+    from verifkit.absrun import Obj, Runner
+    from verifkit.finite import Raised, Undecided
+    out = Outcome("R04.7", "the per-curve integrals hand every segment its own node count: with the default, what a segment "
+                           "receives does not depend on which segment the curve happens to start with", floor=5)
+
+    class PtW(StandIn):
+        def __contains__(self, p):
+            return False
+
+    for name, extra in (("vertical", (2, 1)), ("polynomial", (2, 1)), ("lenght", ()), ("area", ()), ("winding_number", ("P",))):
+        q = f"jordancurve.IntegrateJordan.{name}"
+        if q not in ctx.model.funcs:
+            out.undecided(q, "function not found", where="jordancurve.py")
+            continue
+        fn = ctx.fn(q)
+        seen = {}
+        und = None
+        for order in ((1, 2, 3), (3, 2, 1)):
+            segs = tuple(Obj(f"seg_deg{d}", degree=d, npts=d + 1) for d in order)
+            J = Obj("J", segments=segs)
+            got = {}
+
+            def hook(rn, ev, call, cname, recv, args, kwargs, got=got):
+                if cname == name and args and isinstance(args[0], Obj) and str(args[0]).startswith("seg_deg"):
+                    a = list(args[1:])
+                    nn = kwargs.get("nnodes", a[len(extra)] if len(a) > len(extra) else None)
+                    got[str(args[0])] = nn
+                    return 0
+                if cname == "box" and recv is J:
+                    return PtW()
+                if cname == "isinstance":
+                    return True
+                return NotImplemented
+            try:
+                Runner(ctx, set(), hook, asserts=True).call_fn(fn, [J] + list(extra))
+            except (Undecided, Raised, TypeError) as ex:
+                und = str(getattr(ex, "what", ex))
+                break
+            seen[order] = got
+        if und:
+            out.undecided(q, f"not interpretable: {und}", where=fn.where())
+            continue
+        a, b = seen[(1, 2, 3)], seen[(3, 2, 1)]
+        diff = [k for k in sorted(a) if a.get(k) != b.get(k)]
+        if len(a) != 3 or len(b) != 3:
+            out.bad(q, "not every segment of the curve is integrated", where=fn.where(), detail=f"segments integrated: {sorted(a)} / {sorted(b)}")
+        elif diff:
+            out.bad(q, "the node count a segment is integrated with depends on the other segments of the curve", where=fn.where(),
+                    detail=f"curve of degrees 1, 2, 3: {a}; the same segments listed 3, 2, 1: {b}")
+        else:
+            out.ok(q, f"every segment receives {sorted(set(map(str, a.values())))} whatever the order", where=fn.where())
+    return out
+
+
+RULES = [r04_1, r04_2, r04_3, r04_4, r04_5, r04_6, r04_7]
